@@ -19,64 +19,6 @@ const c12Rule = "case = persist or merge workload (small and 128-document-block 
 	"'close channel closed when the k-th byte reaches the writer' (result must be ErrClosed, or nil with the complete fault-free file and the right byte count); files > 8 KiB (block family: > 2 KiB): exhaustive within 64 bytes of " +
 	"every section/flush boundary, every 29th offset elsewhere; non-trivial = file spans >=2 buffer flushes and the fault lands strictly inside; distinct = hash of the workload text"
 
-var errInjected = errors.New("injected write failure")
-
-// failAfter accepts exactly k bytes, then fails forever.
-type failAfter struct {
-	k, n int
-	buf  []byte
-}
-
-func (w *failAfter) Write(p []byte) (int, error) {
-	room := w.k - w.n
-	if room <= 0 {
-		return 0, errInjected
-	}
-	if len(p) <= room {
-		w.buf = append(w.buf, p...)
-		w.n += len(p)
-		return len(p), nil
-	}
-	w.buf = append(w.buf, p[:room]...)
-	w.n += room
-	return room, errInjected
-}
-
-// failOnce fails exactly one Write call - the one during which byte k would be
-// written (a partial write up to k is accepted) - and works again afterwards.
-type failOnce struct {
-	k, n   int
-	failed bool
-}
-
-func (w *failOnce) Write(p []byte) (int, error) {
-	if !w.failed && w.n+len(p) > w.k {
-		w.failed = true
-		room := w.k - w.n
-		w.n += room
-		return room, errInjected
-	}
-	w.n += len(p)
-	return len(p), nil
-}
-
-// closeAt closes ch when the k-th byte arrives (k == 0: before anything).
-type closeAt struct {
-	k      int
-	ch     chan struct{}
-	closed bool
-	buf    bytes.Buffer
-}
-
-func (w *closeAt) Write(p []byte) (int, error) {
-	w.buf.Write(p)
-	if !w.closed && w.buf.Len() >= w.k {
-		close(w.ch)
-		w.closed = true
-	}
-	return len(p), nil
-}
-
 // offsetsToTry returns the fault offsets for a file: all of them for small
 // files, boundary neighbourhoods + a stride for large ones.
 var exhaustiveLimit = 8192
